@@ -59,12 +59,19 @@ func (k *kase) op(line string) string {
 				k.r.Hit("mech:upload-acked-after-hook")
 			}
 			if out == "err" {
-				k.r.Hit("mech:upload-refused:" + ws[0])
+				if ws[0] == "upend" {
+					k.r.Hit("mech:upload-refused:parked")
+				} else {
+					k.r.Hit("mech:upload-refused:" + ws[2])
+				}
 			}
 		case "copy", "cpbegin", "cpend":
 			k.work++
-			if out == "fail" {
+			if out == "fail" && ws[0] != "cpend" {
 				k.r.Hit("mech:copy-rejected:" + ws[2])
+			}
+			if ws[0] == "copy" && len(ws) == 4 && ws[3] != "ok" && out == "ok" {
+				k.r.Hit("mech:row-delete-failed:" + ws[3])
 			}
 			if out == "ok" {
 				k.r.Hit("mech:copy-ok")
@@ -210,6 +217,27 @@ var upFaults = []string{"ok", "qseterr", "srcerr"}
 var delFaults = []string{"ok", "qdelerr"}
 var poss = []string{"pre", "post"}
 
+// withKinds: base words plus base:kind for every error kind
+func withKinds(bases ...string) []string {
+	var out []string
+	for _, b := range bases {
+		out = append(out, b)
+		if b == "ok" {
+			continue
+		}
+		for _, kd := range errKinds[1:] {
+			out = append(out, b+":"+kd)
+		}
+	}
+	return out
+}
+
+var (
+	allUpFaults  = withKinds(upFaults...)
+	allDelFaults = withKinds(delFaults...)
+	allFaults    = allCopyFaults()
+)
+
 func script(r *hk.Run, label string, ops []string) {
 	k := begin(r, label)
 	for _, o := range ops {
@@ -245,12 +273,15 @@ func genWitnesses(r *hk.Run) {
 }
 
 func genFaultMatrix(r *hk.Run) {
-	for _, f := range copyFaults {
-		for _, dq := range delFaults {
+	for _, f := range allFaults {
+		for _, dq := range allDelFaults {
 			for _, mode := range []string{"atomic", "pre", "post"} {
 				for _, mid := range []string{"", "up 1 ok", "up 1 qseterr", "restart", "up 2 ok"} {
 					if mode == "atomic" && mid != "" && mid != "restart" {
 						continue
+					}
+					if strings.Contains(dq, ":") && (f != "ok" || mid != "") {
+						continue // the kinds of queue.Delete errors only matter when the deletion is reached
 					}
 					k := begin(r, "fault-matrix "+f+" "+dq+" "+mode+" ["+mid+"]")
 					k.op("up 1 ok")
@@ -284,9 +315,12 @@ func genFaultMatrix(r *hk.Run) {
 func genUploadMatrix(r *hk.Run) {
 	mids := []string{"", "up 1 ok", "up 1 qseterr", "copy 1 ok ok", "copy 1 desterr ok", "restart", "drain ok -", "up 2 ok"}
 	for _, pre := range []string{"", "up 1 ok", "up 1 qseterr"} {
-		for _, q := range upFaults {
+		for _, q := range allUpFaults {
 			for _, pos := range poss {
 				for _, mid := range mids {
+					if strings.Contains(q, ":") && mid != "" && mid != "restart" && mid != "up 1 ok" {
+						continue
+					}
 					k := begin(r, "upload-matrix ["+pre+"] "+q+" "+pos+" ["+mid+"]")
 					if pre != "" {
 						k.op(pre)
@@ -315,13 +349,13 @@ func randomOp(rd *hk.Rand, n int, parkedU, parkedC map[int]bool) string {
 	case x < 22:
 		q := "ok"
 		if rd.Chance(30) {
-			q = rd.Pick(upFaults)
+			q = rd.Pick(allUpFaults)
 		}
 		return fmt.Sprintf("up %d %s", i, q)
 	case x < 32:
 		q := "ok"
 		if rd.Chance(30) {
-			q = rd.Pick(upFaults)
+			q = rd.Pick(allUpFaults)
 		}
 		return fmt.Sprintf("upbegin %d %s %s", i, q, rd.Pick(poss))
 	case x < 42:
@@ -334,21 +368,21 @@ func randomOp(rd *hk.Rand, n int, parkedU, parkedC map[int]bool) string {
 	case x < 62:
 		f := "ok"
 		if rd.Chance(50) {
-			f = rd.Pick(copyFaults)
+			f = rd.Pick(allFaults)
 		}
 		dq := "ok"
 		if rd.Chance(20) {
-			dq = "qdelerr"
+			dq = rd.Pick(allDelFaults)
 		}
 		return fmt.Sprintf("copy %d %s %s", i, f, dq)
 	case x < 72:
 		f := "ok"
 		if rd.Chance(30) {
-			f = rd.Pick(copyFaults)
+			f = rd.Pick(allFaults)
 		}
 		dq := "ok"
 		if rd.Chance(20) {
-			dq = "qdelerr"
+			dq = rd.Pick(allDelFaults)
 		}
 		return fmt.Sprintf("cpbegin %d %s %s %s", i, f, dq, rd.Pick(poss))
 	case x < 82:
@@ -371,7 +405,7 @@ func randomOp(rd *hk.Rand, n int, parkedU, parkedC map[int]bool) string {
 		if len(bad) == 0 {
 			bad = []string{"-"}
 		}
-		return fmt.Sprintf("drain %s %s", rd.Pick(copyFaults[1:]), strings.Join(bad, ","))
+		return fmt.Sprintf("drain %s %s", rd.Pick(allFaults[1:]), strings.Join(bad, ","))
 	case x < 95:
 		return "restart"
 	default:
@@ -456,7 +490,7 @@ func genCrashEverywhere(r *hk.Run, scripts, length int) {
 
 var exAlphabet = []string{
 	"up 0 ok", "up 0 qseterr", "upbegin 0 ok pre", "upbegin 0 qseterr post", "upend 0",
-	"copy 0 ok ok", "copy 0 desterr ok", "copy 0 corrupt ok", "cpbegin 0 ok ok pre", "cpbegin 0 ok qdelerr post", "cpend 0",
+	"copy 0 ok ok", "copy 0 desterr ok", "copy 0 corrupt ok", "copy 0 fetcherr:notexist ok", "drain fetcherr:enoent 0,1", "cpbegin 0 ok ok pre", "cpbegin 0 ok qdelerr post", "cpend 0",
 	"restart", "up 1 ok", "drain destsize 0",
 }
 
@@ -518,7 +552,8 @@ func genMalformed(r *hk.Run) {
 	k := begin(r, "malformed")
 	for _, o := range []string{"", "up", "up 1", "up x ok", "up 01 ok", "up 1 maybe", "up 12345 ok", "copy 1 ok", "copy 1 nofault ok",
 		"copy 1 ok nodq", "cpbegin 1 ok ok mid", "drain ok", "drain nofault -", "drain ok 1,,2", "drain ok ,", "restart now", "dump all",
-		"upend", "cpend x", "frobnicate", "live", "settle", "upbegin 1 ok", "upbegin 1 ok pre extra", "up 1 ok", "copy 1 ok ok", "dump"} {
+		"upend", "cpend x", "copy 1 fetcherr: ok", "copy 1 fetcherr:nokind ok", "copy 1 fetcherr:eof:eof ok", "copy 1 ok:eof ok", "copy 1 fetchsize:eof ok",
+		"copy 1 shortread:eof0 ok:eof", "up 1 ok:eof", "up 1 qseterr:", "up 1 srcerr:eof0", "copy 1 ok qdelerr:x", "frobnicate", "live", "settle", "upbegin 1 ok", "upbegin 1 ok pre extra", "up 1 ok", "copy 1 ok ok", "dump"} {
 		k.op(o)
 	}
 	k.finish()
@@ -533,7 +568,7 @@ func genMalformed(r *hk.Run) {
 
 // Run is the generator + oracle of C19.
 func Run(r *hk.Run) {
-	r.Res.Rule = "cases: (a) witnesses of F-C19-1/2; (b) copy-fault matrix {7 faults} x {queue.Delete ok/err} x {atomic, parked before/after queue.Delete} x {nothing, duplicate upload, failing upload, restart, other upload in between}; (c) upload matrix {nothing, acked, failed earlier upload} x {ok, queue.Set error, source error} x {parked before/after queue.Set} x 8 interleaved ops; (d) every op sequence of depth D (4 quick, 5 thorough) over a 14-op alphabet; (e) random walks over 4 blobs with all ops; (f) random scripts cut (crash + restart) after every prefix; (g) the real syncLoop via blobserver.CreateHandler(\"sync\") with restarts; (h) malformed ops. Every case ends with restart + failure-free drain and the liveness oracle; the safety oracle runs after every op. distinct = distinct op sequences; non-trivial = at least one acknowledged upload and one copy/drain/restart"
+	r.Res.Rule = "cases: (a) witnesses of F-C19-1/2; (b) copy-fault matrix {all 32 fault words: ok, fetchsize, corrupt, destsize, shortread:eof0 and fetcherr/shortread/desterr x 9 error kinds (generic, os.ErrNotExist, PathError{ENOENT}, context.Canceled, DeadlineExceeded, io.EOF, io.ErrUnexpectedEOF, blobserver.ErrCorruptBlob, sorted.ErrNotFound)} x {queue.Delete ok/err} x {atomic, parked before/after queue.Delete} x {nothing, duplicate upload, failing upload, restart, other upload in between}; (c) upload matrix {nothing, acked, failed earlier upload} x {ok, queue.Set error, source error} x {parked before/after queue.Set} x 8 interleaved ops; (d) every op sequence of depth D (4 quick, 5 thorough) over a 16-op alphabet; (e) random walks over 4 blobs with all ops; (f) random scripts cut (crash + restart) after every prefix; (g) the real syncLoop via blobserver.CreateHandler(\"sync\") with restarts; (h) malformed ops. Every case ends with restart + failure-free drain and the liveness oracle; the safety oracle runs after every op. distinct = distinct op sequences; non-trivial = at least one acknowledged upload and one copy/drain/restart"
 	genWitnesses(r)
 	genFaultMatrix(r)
 	genUploadMatrix(r)
